@@ -17,7 +17,7 @@ Has(r, f) == f \in DOMAIN r
 St0 == [D |-> [n \in {"D"} |-> {}]]
 MkData(e) == [n \in {"D"} \cup SToSet(e.graphs) \cup {e.quads[i][4] : i \in 1..Len(e.quads)} |->
                 {QT(e.quads[i]) : i \in {j \in 1..Len(e.quads) : e.quads[j][4] = n}}]
-Ctx(s, cf) == [D |-> s.D, active |-> {}, ord |-> cf.ord, dev |-> FALSE, dev2 |-> FALSE, union |-> cf.union_default, dev3 |-> "KF_C10_using_named" \in Devs]
+Ctx(s, cf) == [D |-> s.D, active |-> {}, ord |-> cf.ord, dev |-> FALSE, dev2 |-> FALSE, union |-> cf.union_default, dev3 |-> "KF_C10_using_named" \in Devs, init |-> EmptyMu]
 
 (* deviation model: per-solution delete-then-insert, for SOME order of the solutions *)
 RECURSIVE PerSolution(_, _, _, _)
